@@ -184,6 +184,81 @@ def analyse(facts, tier):
         okit = any(b.get('cond') is not None and 'hash_buckets' in show(b['cond']) or (b.get('cond') is not None and const_of(strip(b['cond']).get('r', {})) == nb) for b in it.d['blocks'])
         obls.append(Obl('C16.R5', it.name, 'iteration walks chains, then the following buckets', it.loc, 'discharged' if okit else 'finding', why='slot->next, else next non-empty bucket below hash_buckets'))
 
+    # iteration ends: when operator++ runs off the last bucket (the edge `index < hash_buckets` is false) the iterator must equal end(),
+    # i.e. its slot member is NULL; a tiny path-sensitive nullness dataflow (states are kept apart by "ran off the end")
+    if it:
+        def key_of(e):
+            e = strip(e)
+            if e is None:
+                return None
+            if e.get('k') == 'DeclRefExpr':
+                return ('v', e.get('id'))
+            if e.get('k') == 'MemberExpr' and strip(e.get('b')).get('k') == 'CXXThisExpr':
+                return ('m', short(e['n']))
+            return None
+        def is_null_expr(e, nulls):
+            e = strip(e)
+            if e is None:
+                return False
+            if const_of(e) == 0 or e.get('k') in ('GNUNullExpr', 'CXXNullPtrLiteralExpr'):
+                return True
+            return key_of(e) in nulls
+        def xfer(e, nulls):
+            nulls = set(nulls)
+            for x in walk(e):
+                if x.get('k') == 'DeclStmt':
+                    for v in x.get('decls', []):
+                        if v.get('init') is not None and is_null_expr(v['init'], nulls):
+                            nulls.add(('v', v['id']))
+                        else:
+                            nulls.discard(('v', v['id']))
+                ap = assign_parts(x)
+                if ap:
+                    kk = key_of(ap[0])
+                    if kk is not None:
+                        (nulls.add if is_null_expr(ap[1], nulls) else nulls.discard)(kk)
+            return frozenset(nulls)
+        cfg = it.cfg
+        states = {cfg.entry: {(False, frozenset())}}
+        work = [cfg.entry]
+        bad_paths = 0
+        n_exit = 0
+        while work:
+            bid = work.pop()
+            blk = cfg.blocks[bid]
+            for (atend, nulls) in list(states[bid]):
+                for st in blk['stmts']:
+                    if any(is_incdec(x) and short(strip(x['e']).get('n', '')) == 'index' for x in walk(st['s'])):
+                        atend = False
+                    nulls = xfer(st['s'], nulls)
+                    if st['s'].get('k') == 'ReturnStmt':
+                        n_exit += 1
+                        if atend and ('m', 'slot') not in nulls:
+                            bad_paths += 1
+                c = blk.get('cond')
+                for k, t in enumerate(blk['succ']):
+                    if t is None:
+                        continue
+                    a2, n2 = atend, nulls
+                    if c is not None and len(blk['succ']) == 2:
+                        n2 = xfer(c, nulls)
+                        sc = strip(c)
+                        # `index < hash_buckets` false: ran off the last bucket
+                        if sc.get('k') == 'BinaryOperator' and sc['op'] == '<' and short(strip(sc['l']).get('n', '')) == 'index' and k == 1:
+                            a2 = True
+                        # !(X = e) true -> X is NULL; false -> X non-null
+                        if sc.get('k') == 'UnaryOperator' and sc['op'] == '!' and assign_parts(strip(sc['e'])):
+                            kk = key_of(assign_parts(strip(sc['e']))[0])
+                            if kk is not None:
+                                n2 = frozenset(set(n2) | {kk}) if k == 0 else frozenset(set(n2) - {kk})
+                    new = (a2, n2)
+                    if new not in states.setdefault(t, set()):
+                        states[t].add(new)
+                        work.append(t)
+        oke = n_exit > 0 and bad_paths == 0
+        obls.append(Obl('C16.R5', it.name, 'running off the last bucket yields end()', it.loc, 'discharged' if oke else 'finding',
+                        why='slot member is NULL on every path where index reached hash_buckets' if oke else
+                        'a path leaves operator++ with index == hash_buckets but a non-NULL slot: the iterator never compares equal to end() and iteration over the banks does not terminate'))
     # ---- R6
     br = facts.fn(BM + '::bucket_remove')
     cfg = br.cfg
